@@ -1,8 +1,8 @@
 /* C41, Engine S: the real info.c object-array functions (parsec_info_get / _set / _test_and_set /
  * parsec_ioa_resize_and_rdlock, parsec_info_lookup_by_iid; file included so that yields fall inside them)
  * with the real rwlock (parsec_rwlock.c) and list code under symbolic interleavings of 2 threads.
- * setup() does the registrations and the array initialisation sequentially (real code, class tables
- * through vp_objstub.h).  The info constructor / destructor are indirect calls = atomic; they count.
+ * setup() builds the registry entries (see add_entry) and initialises the object array with the real
+ * parsec_info_object_array_init sequentially (class tables through vp_objstub.h).  The info constructor / destructor are indirect calls = atomic; they count.
  *
  * SCEN 1  T0: get(id)            T1: get(id)                 first get on an empty slot, info with constructor
  * SCEN 2  T0: get(id)            T1: set(id, X)
@@ -26,11 +26,13 @@
 #define NOBJ 3
 static parsec_info_t nfo;
 static parsec_info_object_array_t oa;
+static parsec_info_entry_t E0, E1;
+static void *slots[2];
 static int owner, cdata, ddata;
 static int objs[NOBJ + 1];                 /* constructed defaults: &objs[k+1] */
 static int n_cons, n_des, destroyed[NOBJ + 1], bad_cb;
 static int X, Y, V0;                       /* user values */
-static int id0 = -1, id1 = -1;
+enum { id0 = 0, id1 = 1 };      /* ids handed out by the two registrations (constants: no shared reads in the threads) */
 static void *g0, *g1, *s_old, *tas_ret;
 static int done0, done1;
 
@@ -51,15 +53,36 @@ static void des(void *elt, void *cb)
     else bad_cb = 1;                       /* the destructor was handed something that was never constructed */
 }
 
+/* the entry that parsec_info_register(nfo, name, des, &ddata, cons, &cdata, NULL) creates, linked with the real list
+ * code.  Calling parsec_info_register itself inside setup() stalls CBMC's symbolic execution of the generated C
+ * (> 100 s for that single call); registration is covered sequentially by the reg_* / ioa_* queries. */
+static int add_entry(parsec_info_entry_t *e, const char *name, int iid)
+{
+    PARSEC_OBJ_CONSTRUCT(e, parsec_list_item_t);
+    e->info = &nfo; e->name = (char *)name; e->destructor = des; e->des_data = &ddata;
+    e->constructor = cons; e->cons_data = &cdata; e->cb_data = NULL; e->iid = iid;
+    parsec_list_nolock_add_before(&nfo.info_list, PARSEC_LIST_ITERATOR_END(&nfo.info_list), &e->list_item);
+    if (iid > nfo.max_id) nfo.max_id = iid;
+    return iid;
+}
+
 void setup(void)
 {
     PARSEC_OBJ_CONSTRUCT(&nfo, parsec_info_t);
-    id0 = parsec_info_register(&nfo, "a", des, &ddata, cons, &cdata, NULL);
+    add_entry(&E0, "a", id0);
     PARSEC_OBJ_CONSTRUCT(&oa, parsec_info_object_array_t);
-    parsec_info_object_array_init(&oa, &nfo, &owner);
+#if SCEN >= 4
+    parsec_info_object_array_init(&oa, &nfo, &owner);                     /* real code: known_infos = 1, one empty heap slot (realloc'ed by the resize) */
+#else
+    /* the state parsec_info_object_array_init(&oa, &nfo, &owner) produces, with the slot array as a static TYPED object
+     * instead of calloc'ed bytes (an untyped heap block makes every slot access a byte-level extract for the solver;
+     * no resize happens in these scenarios, the array is never realloc'ed) */
+    oa.known_infos = nfo.max_id + 1; oa.info_objects = slots; oa.infos = &nfo; oa.cons_obj = &owner;
+    parsec_list_push_front(&nfo.ioa_list, &oa.list_item);
+#endif
 #if SCEN >= 4
     parsec_info_set(&oa, id0, &V0);
-    id1 = parsec_info_register(&nfo, "b", des, &ddata, cons, &cdata, NULL);     /* known_infos stays 1: first access to id1 grows the array */
+    add_entry(&E1, "b", id1);                                         /* known_infos stays 1: the first access to id1 grows the array */
 #endif
 }
 
@@ -75,6 +98,9 @@ void thread1(void) { tas_ret = parsec_info_test_and_set(&oa, id0, &X, NULL); don
 #elif SCEN == 4
 void thread0(void) { g0 = parsec_info_get(&oa, id0); done0 = 1; }
 void thread1(void) { g1 = parsec_info_get(&oa, id1); done1 = 1; }
+#elif SCEN == 6   /* development probe */
+void thread0(void) { g0 = parsec_info_get(&oa, 0); done0 = 1; }
+void thread1(void) { g1 = oa.info_objects[0]; done1 = 1; }
 #elif SCEN == 5
 void thread0(void) { s_old = parsec_info_set(&oa, id0, &Y); done0 = 1; }
 void thread1(void) { tas_ret = parsec_info_test_and_set(&oa, id1, &X, NULL); done1 = 1; }
@@ -123,6 +149,8 @@ void check(void)
     if (n_cons == 1 && slot0 == &X) VWITNESS("constructed default lost against test_and_set");
     if (slot0 == &objs[1]) VWITNESS("test_and_set lost against the constructed default");
     if (n_cons == 0) VWITNESS("test_and_set first, no construction");
+#elif SCEN == 6
+    VWITNESS("probe");
 #elif SCEN == 4
     VASSERTM(oa.known_infos == 2, "array grown to the registered infos");
     VASSERTM(g0 == &V0 && slot0 == &V0, "the value of the other slot survives the concurrent resize and is what get returns");
